@@ -61,6 +61,56 @@ pub fn inputs(seed: u64, tier: Tier) -> Vec<In> {
     }
     // invalid neighbours: truncations and substitutions at spread positions
     let mut all: Vec<In> = Vec::new();
+    // invalid LZMA2 streams that are only caught at the END of a compressed chunk (declared sizes vs. payload, last
+    // payload byte altered, spare byte inside the declared compressed size), alone and inside an XZ block
+    {
+        let c3 = |prog: Vec<Sym>| Chunk::C { class: 3, props: (3, 0, 2), prog };
+        let bases: Vec<Vec<Chunk>> = vec![
+            vec![c3(vec![Sym::L(0x61); 300])],
+            vec![c3(vec![Sym::L(1), Sym::L(2), Sym::L(3), Sym::M(2, 3), Sym::L(4)]), Chunk::U { reset: false, data: vec![7, 8, 9] }],
+            vec![Chunk::U { reset: true, data: b"abcdefgh".to_vec() }, Chunk::C { class: 2, props: (1, 3, 4), prog: vec![Sym::M(8, 5), Sym::L(1), Sym::S, Sym::R(0, 3)] }, Chunk::U { reset: false, data: vec![1] }],
+        ];
+        for cs in &bases {
+            let w = lzma2::write(cs);
+            for (ci, l) in w.layout.iter().enumerate() {
+                if !l.compressed {
+                    continue;
+                }
+                let mut muts: Vec<(String, Vec<u8>)> = Vec::new();
+                // declared uncompressed size one less
+                if l.unpacked > 1 {
+                    let mut m = w.bytes.clone();
+                    let nv = l.unpacked - 2;
+                    m[l.control_off] = (m[l.control_off] & 0xE0) | ((nv >> 16) & 0x1F) as u8;
+                    m[l.unpacked_off] = (nv >> 8) as u8;
+                    m[l.unpacked_off + 1] = nv as u8;
+                    muts.push(("declared uncompressed size - 1".into(), m));
+                }
+                // last payload byte altered
+                for x in [0x01u8, 0x80] {
+                    let mut m = w.bytes.clone();
+                    m[l.body_off + l.body_len - 1] ^= x;
+                    muts.push((format!("last payload byte ^= {:#04x}", x), m));
+                }
+                // spare byte inside the declared compressed size
+                {
+                    let mut m = w.bytes[..l.body_off + l.body_len].to_vec();
+                    m.push(0);
+                    m.extend_from_slice(&w.bytes[l.body_off + l.body_len..]);
+                    let pk = l.packed_off.unwrap();
+                    let nv = l.body_len; // (len + 1) - 1
+                    m[pk] = (nv >> 8) as u8;
+                    m[pk + 1] = nv as u8;
+                    muts.push(("spare byte inside the declared compressed size".into(), m));
+                }
+                for (what, m) in muts {
+                    all.push(In { label: format!("lzma2 [{}] chunk {} {}", lzma2::chunks_str(cs), ci, what), fmt: Fmt::Lzma2, opts: Opts::default(), bytes: m.clone() });
+                    let f = XzFile { check_id: 0, blocks: vec![Block { payload: m, plain: w.expect.clone(), ..Default::default() }], ..Default::default() };
+                    all.push(In { label: format!("xz block with lzma2 [{}] chunk {} {}", lzma2::chunks_str(cs), ci, what), fmt: Fmt::Xz, opts: Opts::default(), bytes: xz::build(&f).0 });
+                }
+            }
+        }
+    }
     // invalid XZ files whose enclosing CRCs are CORRECT (only the field's own validation can object): padding bytes,
     // sizes, counts - decisions that are taken from the currently visible buffer
     {
